@@ -238,3 +238,88 @@ Example C18_param_concrete :
   /\ c18_param_case 10 (Some 1) 1 [[(0,10)]] = 3
   /\ slices (5 * 7) (5 * 3) = map (scale_slice 5) [(0,3);(3,6);(6,7)].
 Proof. vm_compute. repeat split; reflexivity. Qed.
+
+(* ---------------- several readers alive at the same time ---------------- *)
+(* The state of a world of readers is the list of the readers' states; an operation (construct, iter(), k x next(), complete
+   pass, close) names its reader.  Frame: an operation on another reader leaves reader k exactly as it is ... *)
+Theorem C18_world_frame : forall (St Rq : Type) (init : nat -> St) (next : nat -> St -> option (St * Rq))
+    (rewinds : nat -> St -> bool) (fuel : nat -> nat) w o k,
+  fst o <> k -> nth_error (fst (w_step init next rewinds fuel w o)) k = nth_error w k.
+Proof. exact @w_step_other. Qed.
+Print Assumptions C18_world_frame.
+
+(* ... hence, under ANY interleaving of operations on the readers of the world, what reader k delivers (operation by
+   operation) and the state it ends in are those of reader k run alone on the operations addressed to it *)
+Theorem C18_world_stream_alone : forall (St Rq : Type) (init : nat -> St) (next : nat -> St -> option (St * Rq))
+    (rewinds : nat -> St -> bool) (fuel : nat -> nat) k ops w s,
+  nth_error w k = Some s ->
+  outs_of k ops (w_trace init next rewinds fuel w ops) = slot_trace init next rewinds fuel k s (proj k ops)
+  /\ nth_error (w_state init next rewinds fuel w ops) k = Some (slot_state init next rewinds fuel k s (proj k ops)).
+Proof. exact @world_stream_alone. Qed.
+Print Assumptions C18_world_stream_alone.
+
+(* the readers of the library (offset readers and the Parquet reader with its row-group cache) in one world: same *)
+Theorem C18_world_reader_alone : forall cfgs k ops w s, nth_error w k = Some s ->
+  outs_of k ops (uw_trace cfgs w ops) = u_slot_trace (cfg_at cfgs k) s (proj k ops).
+Proof. exact world_reader_alone. Qed.
+Print Assumptions C18_world_reader_alone.
+
+(* and every complete pass of every reader, wherever it stands in the interleaving, delivers every record of its OWN
+   source once, in order, in chunks of at most its own chunk size (a closed reader delivers nothing) *)
+Theorem C18_world_every_pass : forall cfgs k, 1 <= u_cs (cfg_at cfgs k) -> forall ops w s, nth_error w k = Some s ->
+  Forall2 (fun o q => o = LDo RdPass ->
+             q = [] \/ (concat (map snd q) = u_rows (cfg_at cfgs k)
+                        /\ Forall (fun ch => length ch <= u_cs (cfg_at cfgs k)) (map snd q)))
+          (proj k ops) (outs_of k ops (uw_trace cfgs w ops)).
+Proof. exact world_every_pass. Qed.
+Print Assumptions C18_world_every_pass.
+
+(* the variant with ONE row-group cache shared by the Parquet readers of a process: not to be told from the code while only
+   one reader is used, whatever is done with it (peeks, restarts, partial and complete passes) ... *)
+Theorem C18_shared_buffer_same_when_alone : forall (A : Type) (cfg : nat -> nat * list (list A)) k ops w s off file,
+  nth_error (snd w) k = Some (s, off, file) -> Forall (fun o => fst o = k) ops ->
+  sh_trace cfg w ops
+  = rd_trace (pq_init (snd (cfg k))) (pq_next (sh_n cfg k) (fst (cfg k))) rewinds_always (sh_n cfg k)
+             (s, off, fst w, file) (map snd ops).
+Proof. exact @shared_alone_same_pq. Qed.
+Print Assumptions C18_shared_buffer_same_when_alone.
+
+(* ... but false with two readers in lock-step: each of them, asked alone, delivers its file; interleaved, reader 1 receives
+   records of file 0 and reader 0 never delivers them *)
+Theorem C18_shared_buffer_refuted :
+  exists ops : list (nat * rd_op),
+    sh_stream 0 (ops_of 0 ops) = concat (snd (sh_example 0)) /\ sh_stream 1 (ops_of 1 ops) = concat (snd (sh_example 1))
+    /\ In 4 (sh_stream 1 ops) /\ ~ In 4 (sh_stream 0 ops) /\ length (sh_stream 0 ops) < 10.
+Proof. exact shared_buffer_refuted. Qed.
+Print Assumptions C18_shared_buffer_refuted.
+
+(* and false when another reader is merely restarted (or constructed) while reader 0 is in the middle of a pass *)
+Theorem C18_shared_buffer_restart_refuted :
+  exists ops : list (nat * rd_op),
+    Forall (fun o => fst o = 0 \/ snd o = RdIter) ops
+    /\ sh_stream 0 (ops_of 0 ops) = concat (snd (sh_example 0))
+    /\ ~ In 4 (sh_stream 0 ops) /\ ~ In 5 (sh_stream 0 ops).
+Proof. exact shared_buffer_restart_refuted. Qed.
+Print Assumptions C18_shared_buffer_restart_refuted.
+
+Example C18_world_concrete :
+  let cf := [CPq 4 (rows_of_sizes [3;3;3;1]); CPq 4 (rows_of_sizes [3;3;1]); COff true 5 2] in
+  let lock := [(0,LOpen); (1,LOpen); (0,LDo (RdNext 1)); (1,LDo (RdNext 1)); (2,LOpen); (0,LDo (RdNext 1)); (1,LDo RdIter);
+               (2,LDo (RdNext 1)); (0,LDo (RdNext 2)); (1,LDo RdPass); (2,LClose)] in
+  uw_trace cf (repeat None 3) lock
+    = [[]; []; [([0;1],[0;1;2;3])]; [([0;1],[0;1;2;3])]; []; [([2],[4;5;6;7])]; []; [([],[0;1])]; [([3],[8;9])];
+       [([0;1],[0;1;2;3]); ([2],[4;5;6])]; []]
+  /\ outs_of 0 lock (uw_trace cf (repeat None 3) lock) = u_slot_trace (cfg_at cf 0) None (proj 0 lock)
+  /\ c18_world_case cf lock (map Some (uw_trace cf (repeat None 3) lock)) = 0
+  (* observations as the shared variant produces them (a record of another source = 4999): lock-step, and a second reader
+     constructed in the middle of a pass *)
+  /\ c18_world_case cf [(0,LOpen); (1,LOpen); (0,LDo (RdNext 1)); (1,LDo (RdNext 1)); (0,LDo (RdNext 1)); (1,LDo (RdNext 1))]
+       [Some []; Some []; Some [([0;1],[0;1;2;3])]; Some [([0],[4999;4999;0;1])]; Some [([2],[4999;6;7;8])];
+        Some [([1;2],[3;4;5;6])]] = 7
+  /\ c18_world_case cf [(0,LOpen); (0,LDo (RdNext 1)); (1,LOpen); (0,LDo (RdNext 2))]
+       [Some []; Some [([0;1],[0;1;2;3])]; Some []; Some [([2;3],[6;7;8;9])]] = 7
+  /\ c18_solo_case (COff false 7 3) [LOpen; LDo (RdNext 1); LDo RdPass]
+       [Some []; Some [([],[0;0;0])]; Some [([],[0;0;0]); ([],[0;0;0]); ([],[0])]] = 0
+  /\ sh_trace sh_example (sh_init sh_example 2) [(0,RdNext 1); (1,RdNext 1); (0,RdNext 1)]
+       = [[([0;1],[0;1;2;3])]; [([0],[4;5;100;101])]; [([2],[102;6;7;8])]].
+Proof. vm_compute. repeat split; reflexivity. Qed.
